@@ -20,6 +20,8 @@ __TAPKEE_IMPLEMENTATION(LandmarkIsomap)
     void validate()
     {
         parameters[landmark_ratio].checked().satisfies(InClosedRange<ScalarType>(3.0 / n_vectors, 1.0)).orThrow();
+        // the embedding is spanned by eigenvectors of the landmark problem
+        parameters[target_dimension].checked().satisfies(InRange<IndexType>(1, static_cast<IndexType>(n_vectors * static_cast<ScalarType>(parameters[landmark_ratio])) + 1)).orThrow();
     }
 
     TapkeeOutput embed()
